@@ -347,6 +347,11 @@ class DiffAlignment:
     self._new_by_old_id[id(old_value)] = new_value
     self._old_by_new_id[id(new_value)] = old_value
 
+  def unalign(self, old_value: Any, new_value: Any):
+    """Removes the alignment between `old_value` and `new_value`."""
+    del self._new_by_old_id[id(old_value)]
+    del self._old_by_new_id[id(new_value)]
+
   def can_align(self, old_value, new_value):
     """Returns true if `old_value` could be aligned with `new_value`."""
     if not daglish.is_memoizable(old_value):
@@ -592,6 +597,18 @@ class _DiffFromAlignmentBuilder:
     # `diff_value` is a copy of `new_value` with shared objects replaced by
     # `Reference`s where appropriate.
     diff_value = yield
+
+    if self.alignment.is_new_value_aligned(new_value) and isinstance(
+        new_value, tuple
+    ):
+      # A tuple can not be modified in place: unless every element is
+      # unchanged, describe it as a new value (which replaces the old tuple).
+      old_value = self.alignment.old_from_new(new_value)
+      if not all(
+          self.aligned_or_equal(old_child, new_child)
+          for old_child, new_child in zip(old_value, new_value)
+      ):
+        self.alignment.unalign(old_value, new_value)
 
     if not self.alignment.is_new_value_aligned(new_value):  # New object.
       if len(new_paths) == 1 or not daglish.is_memoizable(new_value):
